@@ -58,8 +58,8 @@ func selftest(t *testing.T) {
 // calling circl
 
 type verifyResult struct {
-	ok    bool
-	okAny bool
+	ok     bool
+	okAny  bool
 	hasAny bool
 }
 
